@@ -44,6 +44,8 @@ def units(tier: str) -> List[Any]:
     us += [("tree", t) for t in F.trees_upto(n)]
     us += [("tree", t) for t in F.par_skeletons(tier)]
     us += [("tree", t) for t in F.hist_skeletons(tier)]
+    # keys unique among siblings only (every region has children 'a', 'b', ...): parallel and history skeletons again
+    us += [("tree-local", t) for t in F.par_skeletons(tier) + F.hist_skeletons(tier)]
     us += [("follow", spec) for spec in follow.specs(3 if tier == "quick" else 4)]
     return us
 
@@ -63,11 +65,11 @@ def relation(nodes: Dict[str, F.N], src: str, tgt: str) -> str:
     return "outside"
 
 
-def explore_universal(tree, engines=ENGINES, collect=None) -> Dict[str, Any]:
-    cfg, nodes, events = F.universal_config(tree, shared=True)
+def explore_universal(tree, engines=ENGINES, collect=None, naming: str = "prefix") -> Dict[str, Any]:
+    cfg, nodes, events = F.universal_config(tree, shared=True, naming=naming)
     return explore_generic(
-        cfg, nodes, events, label=F.tree_str(tree), replay=dict(kind="tree", tree=tree),
-        engines=engines, collect=collect,
+        cfg, nodes, events, label=F.tree_str(tree) + ("" if naming == "prefix" else f" (keys {naming})"),
+        replay=dict(kind="tree", tree=tree, naming=naming), engines=engines, collect=collect,
     )
 
 
@@ -191,6 +193,8 @@ def run_unit(unit) -> Dict[str, Any]:
     kind, payload = unit
     if kind == "tree":
         return explore_universal(payload)
+    if kind == "tree-local":
+        return explore_universal(payload, naming="local")
     return follow.explore_c01(payload)
 
 
@@ -225,7 +229,7 @@ def replay_generic(cfg, nodes, payload, guard_impls=None) -> List[Dict[str, Any]
 def replay(payload) -> List[Dict[str, Any]]:
     if payload["kind"] == "tree":
         tree = _tuplify(payload["tree"])
-        cfg, nodes, events = F.universal_config(tree, shared=True)
+        cfg, nodes, events = F.universal_config(tree, shared=True, naming=payload.get("naming", "prefix"))
         return replay_generic(cfg, nodes, payload)
     return follow.replay_c01(payload)
 
